@@ -208,7 +208,8 @@ struct DWorld : World {
 			switch (op.kind) {
 			case OP_SET: {
 				Rec *r = new_rec(id, op.b, false);
-				int rc; { Sut s(failn); rc = mpt_dispatch_set(D, id, handler, r); fired = g.fired; }
+				int rc; { Sut s(failn); if (op.c & 1) rc = D->set_handler(id, handler, r) ? 0 : -1; else rc = mpt_dispatch_set(D, id, handler, r); fired = g.fired; }
+				if (op.c & 1) { st.hit("probe:cxx_set_handler"); command *c; { Sut s; c = D->handler(id); } if ((rc >= 0 || live.count(id)) && !c) fail("lost-registration", "C++ handler(%lx) finds nothing after set_handler", (unsigned long) id); }
 				log.ev("SET id %lx rec #%d%s -> %d", (unsigned long) id, r->index, fired ? " allocfail" : "", rc);
 				if (live.count(id)) { if (rc >= 0) fail("duplicate-accepted", "second registration for id %lx accepted", (unsigned long) id); }
 				else if (rc < 0) { if (!fired) fail("refused-valid", "registration of id %lx refused (%d) without allocation fault", (unsigned long) id, rc); }
@@ -233,7 +234,15 @@ struct DWorld : World {
 				else { live.erase(id); expect_eol(old, "clear"); if (model_def == id) {/* default id may dangle: emit(NULL) then reports it */} outcome = 1; }
 				break;
 			}
+			case OP_SET_ERR + 100: break;
 			case OP_EMIT_ID: {
+				if ((op.c % 4) == 3) {
+					// C++ set_default: only an id with a handler can become the default event
+					bool ok; { Sut s; ok = D->set_default(id); }
+					log.ev("SET_DEFAULT id %lx -> %d", (unsigned long) id, (int) ok); st.hit("probe:cxx_set_default");
+					if (ok != (live.count(id) != 0)) fail("default-id", "set_default(%lx) %s although %s handler is registered for it", (unsigned long) id, ok ? "accepted" : "refused", live.count(id) ? "a" : "no");
+					if (ok) model_def = id;
+				}
 				event ev; ev.id = id;
 				char what[64]; snprintf(what, sizeof what, "EMIT id %lx", (unsigned long) id);
 				emit(&ev, id, true, what, false); outcome = live.count(id) ? 1 : 2;
